@@ -531,6 +531,18 @@ pub fn gen(seed: u64, count: usize, tier: &str, params: &Params) -> Vec<Value> {
                                   "WS": *rng.pick(&[1i64, 3, 10]), "d": rng.range(0, 2), "wexp": 0, "bexp": -1, "qe": 2, "tol": 2, "shape": shape, "axis": axis, "pair_only": true,
                                   "lay1": lay1, "lay2": lay2, "wlay": *rng.pick(&["plain", "rev", "step"])}));
             }
+            "mompair" => {
+                // bulk vs single central moments on NON-dyadic data with a large offset relative to the spread (the correction
+                // terms of the shifted-moment recombination are then not exactly zero): only the bit-for-bit agreement is judged
+                let n = rng.range(2, 12) as usize;
+                let off = *rng.pick(&[0i64, 3_000, 300_000, 30_000_000, 900_000_000]);
+                let r: Vec<i64> = (0..n).map(|_| off + rng.range(-9, 9)).collect();
+                let shape = random_shape(&mut rng, n);
+                let (lay1, lay2) = two_lays(&mut rng, &shape);
+                let ty = *rng.pick(&["f64", "f64", "f32"]);
+                cases.push(json!({"ev": "summ", "stat": "moments", "ty": ty, "r": r, "w": [], "S": *rng.pick(&[3i64, 7, 10]), "WS": 1, "p": rng.range(2, 6), "bexp": -1,
+                                  "sexp": 0, "qe": 2, "tol": 2, "shape": shape, "axis": 0, "pair_only": true, "lay1": lay1, "lay2": lay2}));
+            }
             "c18big" => {
                 // bulk vs single central moments where the sums overflow (finite data near the top of the range, or an infinity):
                 // only the bit-for-bit agreement of the two routines is judged (C18)
